@@ -34,6 +34,7 @@ rw("d", "double", True)
 rw("b", "bool", True); rw("c", "bool", False)
 rw("s", "QString", True); rw("t", "QString", False)
 rw("e", "VObj::Mode", True)
+rw("e2", "VObj::Mode2", False)
 rw("f", "VObj::Flags", False)
 rw("p", "VObj*", True); rw("q", "VObj*", False)
 rw("sl", "QStringList", False)
@@ -48,7 +49,7 @@ props.append(prop("ro", "int", write=False, notify="roChanged")); signals.append
 props.append(prop("wo", "int", read=False))
 # result sinks
 for name, ty in [("ri", "int"), ("ru", "uint"), ("rd", "double"), ("rb", "bool"), ("rs", "QString"),
-                 ("re", "VObj::Mode"), ("rf", "VObj::Flags"), ("rp", "VObj*"), ("rsl", "QStringList"),
+                 ("re", "VObj::Mode"), ("re2", "VObj::Mode2"), ("rf", "VObj::Flags"), ("rp", "VObj*"), ("rsl", "QStringList"),
                  ("rv", "QVariant")]:
     rw(name, ty, False)
 signals += [meth("fired"), meth("firedWith", ("int", "QString")),
@@ -61,6 +62,7 @@ slots = [meth("done", ("int",)), meth("say", ("QString",)), meth("take", ("VObj*
 methods = [meth("twice", ("int",), "int"), meth("echo", ("QString",), "QString")]
 enums = [
     {"isClass": False, "isFlag": False, "name": "Mode", "values": ["M0", "M1", "M2"]},
+    {"isClass": False, "isFlag": False, "name": "Mode2", "values": ["N0", "N1"]},
     {"isClass": False, "isFlag": False, "name": "Flag", "values": ["F0", "F1", "F2"]},
     {"alias": "Flag", "isClass": False, "isFlag": True, "name": "Flags", "values": ["F0", "F1", "F2"]},
     {"isClass": True, "isFlag": False, "name": "Scoped", "values": ["S0", "S1"]},
